@@ -8,6 +8,7 @@ import (
 	"path"
 	"path/filepath"
 	"strings"
+	"syscall"
 
 	"github.com/johannesboyne/gofakes3"
 	"github.com/spf13/afero"
@@ -114,6 +115,11 @@ func removeEmptyDirs(fs afero.Fs, root, dir string) {
 			return
 		}
 		entries, err := afero.ReadDir(fs, filepath.FromSlash(dir))
+		if os.IsNotExist(err) || errors.Is(err, syscall.ENAMETOOLONG) {
+			// This level was never created; the ones above it may have been:
+			dir = path.Dir(dir)
+			continue
+		}
 		if err != nil || len(entries) > 0 {
 			return
 		}
